@@ -280,6 +280,12 @@ func (h *hcache) do(thread int, pop pop) opRec {
 		}
 		rec.Size = e.Metadata.Size
 		rec.Meta = ident(e.Metadata.Object.R, e.Metadata.Object.V, e.Metadata.Object.N)
+		// the caller goes on using the entry it was handed (the proxy builds Age / ttl from it) while
+		// other requests work on the stored one: what it was handed must be its own
+		vsched.Yield("using the entry returned by Cache")
+		if !usesEntryAsCaller(e) {
+			rec.Bad = "entry returned by Cache has no expiry / access time"
+		}
 	}
 	plain := func(b []byte) io.Reader { return strings.NewReader(string(b)) }
 	switch f[0] {
@@ -528,3 +534,12 @@ func (v view) countersProblem(file bool, metricsFresh bool) string {
 }
 
 var _ = vos.NoPlan
+
+// usesEntryAsCaller reads the metadata of an entry the way the code that called Cache / Get does
+// afterwards (the proxy computes Age and ttl from it). The name marks it for the race oracle: this
+// access counts as the API caller's, not as the harness inspecting internals.
+//
+//go:noinline
+func usesEntryAsCaller(e *Entry[vmeta]) bool {
+	return !e.Metadata.Expires.IsZero() && !e.Metadata.LastAccess.IsZero()
+}
